@@ -65,6 +65,9 @@ fn main() {
         threads,
     };
     watchdog(tier, id.to_string());
+    if tier == Tier::Quick {
+        xq::SECONDS_PER_TRIAL.store(120, std::sync::atomic::Ordering::Relaxed);
+    }
     let started = Instant::now();
     let mut st = report::run_trials(m.as_ref(), &cfg);
     if sub {
